@@ -67,6 +67,18 @@ PLAN["C07"] = [g4("full", "dev", "general", 1500, 40000, 20), g4("full", "releas
                g4("full", "dev", "cyclic", 1000, 30000, 26), g4("default", "release", "finalizers", 1000, 30000, 27),
                g4("noauto", "dev", "nesting", 1000, 30000, 28)] + heap("general", 2, [("full", "dev"), ("nofin", "release")], quick=6000)
 PLAN["C14"] += [g4("full", "dev", "cyclic", 800, 30000, 29), g4("nofin", "release", "cyclic", 800, 30000, 30)]
+def g2(config, profile, shards, qdepth, tdepth, faults=0):
+    return [{"engine": "g2", "config": config, "profile": profile, "shard": 0, "args": {"faults": faults, "g2-shard": k, "g2-shards": shards},
+             "quick": {"depth": qdepth}, "thorough": {"depth": tdepth}} for k in range(shards)]
+
+
+PLAN["C01"] += g2("full", "dev", 4, 4, 5) + g2("nofin", "release", 2, 4, 5)
+PLAN["C02"] += g2("full", "release", 4, 4, 5)
+PLAN["C04"] += g2("full", "dev", 4, 4, 5)
+PLAN["C05"] += g2("full", "release", 3, 4, 5)
+PLAN["C08"] += g2("full", "dev", 3, 4, 5)
+PLAN["C13"] += g2("full", "release", 3, 4, 5)
+PLAN["C07"] += g2("full", "dev", 6, 4, 5, faults=1) + g2("nofin", "release", 2, 3, 4, faults=1)
 PLAN["C18"] = [{"engine": "derive", "config": "default", "profile": "dev", "args": {}, "quick": {}, "thorough": {}}]
 PLAN["C19"] = simple("threads", [("full", "dev"), ("full", "release"), ("nofin", "dev")], 150, 6000) + \
     simple("teardown", [("full", "dev"), ("full", "release"), ("default", "dev"), ("min", "release")], 150, 4000)
@@ -156,6 +168,7 @@ CLAIMS["C19"] = claim("property-based differential testing (concurrent vs solo e
 NOT_APPLICABLE = []
 
 ENGINES_EXTRA = [
+    {"name": "g2-small-scope-enumerator", "path": "/verif/harness/src/main.rs (rccv g2)", "serves_properties": ["C01", "C02", "C04", "C05", "C07", "C08", "C13"], "kind_free_text": "exhaustive enumeration of all operation sequences up to a depth over a 50-letter reduced alphabet (<=3 handles addressable), same interpreter and rules; seed-independent floor under the random search"},
     {"name": "g4-crash-point-enumerator", "path": "/verif/harness/src/main.rs (rccv g4)", "serves_properties": ["C07", "C14"], "kind_free_text": "enumerates every callback invocation index of every callback kind of each generated program as a panic point; sampled pairs; own delta-debugging shrinker"},
     {"name": "policy", "path": "/verif/harness/src/policy.rs (rccv policy)", "serves_properties": ["C15"], "kind_free_text": "proptest workloads for the automatic collection policy"},
     {"name": "limits", "path": "/verif/harness/src/limits.rs (rccv limits)", "serves_properties": ["C16"], "kind_free_text": "proptest boundary walks at the counter limits"},
